@@ -110,7 +110,11 @@ def check_path(path, x0, t0, V, exact, horizon=None, limits=None, closed=False, 
     # drift: the model also has explicit ODE terms, which a tau-leap step adds as f_ode*tau (not an event); only the event part is
     # checked then, and only in exact mode (which ignores the drift)
     big = float(max(np.max(np.abs(X)), np.max(np.abs(expect)) if expect.size else 0.0)) >= 2.0 ** 50
-    if big and not (drift and not exact):
+    if Jf.size and float(np.max(np.abs(Jf))) >= 2.0 ** 53:
+        # a reported count of 9e15 or more (Poisson mean of that size: the K-02 mechanism just below numpy's limit) is not an exactly
+        # representable number any more, and count x magnitude leaves the int64 range: V.counts cannot be evaluated by the checker
+        stats["steps_with_counts_beyond_2^53"] = int(np.sum(np.max(np.abs(Jf), axis=1) >= 2.0 ** 53))
+    elif big and not (drift and not exact):
         # beyond 2^50 integers are no longer all representable (and sums of several event contributions round): the clause is judged to
         # the precision floating point has there
         stats["steps_judged_with_float_tolerance"] = 1
